@@ -20,18 +20,23 @@ import (
 type ReqKind uint8
 
 const (
-	ReqYield      ReqKind = iota // step budget exhausted at an ordinary yield site
-	ReqSync                      // about to perform a synchronisation operation
-	ReqBlock                     // cannot proceed until the progress epoch changes
-	ReqDone                      // task finished (sent with race sync ENABLED)
-	ReqPoolGet                   // addr = pool; reply.val = item or nil
-	ReqPoolPut                   // addr = pool; val = item
-	ReqClock                     // reply.n = simulated nanoseconds
-	ReqSleep                     // n = duration
-	ReqRand                      // reply.n = 63 random bits from the run's PRNG
-	ReqSpawn                     // val = func() to run as a new task
-	ReqCondWait                  // addr = cond; block until signalled
-	ReqCondSignal                // addr = cond; n = 0 signal, 1 broadcast
+	ReqYield            ReqKind = iota // step budget exhausted at an ordinary yield site
+	ReqSync                            // about to perform a synchronisation operation
+	ReqBlock                           // cannot proceed until the progress epoch changes
+	ReqDone                            // task finished (sent with race sync ENABLED)
+	ReqPoolGet                         // addr = pool; reply.val = item or nil
+	ReqPoolPut                         // addr = pool; val = item
+	ReqClock                           // reply.n = simulated nanoseconds
+	ReqSleep                           // n = duration
+	ReqRand                            // reply.n = 63 random bits from the run's PRNG
+	ReqSpawn                           // val = func() to run as a new task
+	ReqCondWait                        // addr = cond; block until signalled
+	ReqCondSignal                      // addr = cond; n = 0 signal, 1 broadcast
+	ReqSelect                          // val = []selCase; n = 1 if there is a default; reply.n = idx<<2 | closedSend<<1 | ok, or -1
+	ReqChanClose                       // addr = channel
+	ReqChanLen                         // addr = channel
+	ReqChanBlockForever                // operation on a nil channel
+	ReqChanMake                        // addr = channel: forget stale state
 )
 
 // Sync operation kinds (request.n of a ReqSync), used for statistics only.
@@ -128,6 +133,7 @@ const (
 	stCondWait
 	stDone
 	stSleeping
+	stChanWait
 )
 
 // Yield is the ordinary yield site inserted by the instrumenter.
